@@ -60,7 +60,7 @@ V_ENSURES(V_IMP(g_mctx != NULL && V_OLD(g_ctx->state) != M_CTX_IDLE, V_RET < 0 &
 /* idle context: every module is deregistered (one pass over them, while the context is current), the thread's slot is emptied, the
  * registration reference is dropped exactly once */
 V_ENSURES(V_IMP(g_mctx != NULL && V_OLD(g_ctx->state) == M_CTX_IDLE && g_tls_set_ret == 0,
-                V_RET == 0 && g_tls == NULL && g.iterate_calls == V_OLD(g.iterate_calls) + 1 && g.unref_calls == V_OLD(g.unref_calls) + 1 && g.unref_arg == (void *)g_ctx))  /*@C07.idle-context-deregisters-modules-and-is-released*/
+                V_RET == 0 && g_tls == NULL && g.iterate_calls == V_OLD(g.iterate_calls) + 1 && g.unref_calls == V_OLD(g.unref_calls) + 1 && __CPROVER_pointer_equals(g.unref_arg, (void *)g_ctx)))  /*@C07.idle-context-deregisters-modules-and-is-released*/
 ;
 
 V_CONTRACT
